@@ -50,7 +50,9 @@ class Contract(object):
         self.verify_only = kw.pop("verify_only", False)
         # execute the body only from the first top-level statement matching this text (AST pattern) to the end: what comes before is
         # not executed, every declared local starts as an arbitrary value of its type (an over-approximation of any entry state)
-        self.from_stmt = kw.pop("from_stmt", None)   # verified against this contract, but call sites resolve to another declaration
+        self.from_stmt = kw.pop("from_stmt", None)
+        self.to_stmt = kw.pop("to_stmt", None)        # ... up to (excluding) the first later top-level statement matching this text
+        self.window = kw.pop("window", None)          # name of the window: several windows of one function are separate units `f@name`   # verified against this contract, but call sites resolve to another declaration
         self.empties = kw.pop("empties", {})             # 'set'/'list'/'dict' -> type of untyped empty displays                    # clause -> known-finding condition
         if kw:
             raise TypeError("unknown contract keys: %s" % sorted(kw))
@@ -83,6 +85,11 @@ class Registry(object):
     # -- declaration helpers used by sidecars
     def contract(self, module, qualname, **kw):
         c = Contract(module, qualname, **kw)
+        if c.window:
+            # a window of a function body verified as a unit of its own: never what a call site sees
+            c.verify_only = True
+            self.contracts[(module, "%s@%s" % (qualname, c.window))] = c
+            return c
         self.contracts[(module, qualname)] = c
         if c.iface:
             self.methods[tuple(c.iface)] = c
